@@ -32,7 +32,21 @@ def race_cases(rng, tier):
                                           sampled_out=(e + f + len(t)) % 2 == 0))
     if tier != "thorough":
         three = rng.sample(three, 600)
-    return out + three
+    # arbitrary (not only nested) schedules on real threads: one event per schedule entry
+    sched = []
+    names = list(METHS)
+    for _ in range(400 if tier != "thorough" else 12000):
+        ms = [rng.choice(names) for _ in range(rng.choice([2, 3, 3]))]
+        if not _ok(ms):
+            continue
+        if rng.random() < 0.5 and "discard" not in ms:
+            ms[rng.randrange(len(ms))] = "discard"
+            if not _ok(ms):
+                continue
+        n = rng.randrange(0, 22)
+        sched.append(dict(kind="race", methods=ms, sched=[rng.randrange(len(ms)) for _ in range(n)],
+                          sampled_out=rng.random() < 0.5))
+    return out + three + sched
 
 
 def is_race(case):
@@ -47,9 +61,14 @@ def to_gallina(case, obs):
     if "driver_exception" in obs:
         return "T Fixed MPost MPost None 0 0 (mk_race true true true true true true 9)"
     variant = "Fixed" if obs["has_lock"] else "Legacy"
-    ms = [case["victim"], case["interferer"]] + ([case["third"]] if case.get("third") else [])
+    ms = methods_of(case)
     if variant == "Legacy" and not case["sampled_out"] and "finalise" in ms:
         return None      # legacy code saving an already aborted recording trips an assertion the model does not carry
+    o = "(mk_race %s %s %s %s %s %s %d)" % (
+        _b(obs["victim"] != "done"), _b(obs["interferer"] != "done"), _b(obs.get("third", "done") != "done"),
+        _b(obs["ar"]), _b(obs["ap"]), _b(obs["fs"]), obs["handed"])
+    if "sched" in case:
+        return "S %s [%s] ([%s]%%nat) %s" % (variant, "; ".join(METHS[m] for m in ms), "; ".join("%d" % i for i in case["sched"]), o)
     return "T %s %s %s %s %d %d (mk_race %s %s %s %s %s %s %d)" % (
         variant, METHS[case["victim"]], METHS[case["interferer"]],
         "(Some %s)" % METHS[case["third"]] if case.get("third") else "None", case["e"], case.get("f", 0),
@@ -57,12 +76,21 @@ def to_gallina(case, obs):
         _b(obs["ar"]), _b(obs["ap"]), _b(obs["fs"]), obs["handed"])
 
 
+def methods_of(case):
+    if "sched" in case:
+        return list(case["methods"])
+    return [case["victim"], case["interferer"]] + ([case["third"]] if case.get("third") else [])
+
+
 def explain(case, obs):
     t = to_gallina(case, obs)
-    return "model_race " + " ".join(t.split(" (mk_race")[0].split()[1:])
+    return ("model_sched " if "sched" in case else "model_race ") + " ".join(t.split(" (mk_race")[0].split()[1:])
 
 
 def describe(case):
+    if "sched" in case:
+        return "threads %s under the schedule %s (one shared access per entry, then each runs to completion)" % (
+            case["methods"], case["sched"])
     s = "%s preempted before its event #%d by a %s on another thread" % (case["victim"], case["e"], case["interferer"])
     if case.get("third"):
         s += ", itself preempted before its event #%d by a %s on a third thread" % (case["f"], case["third"])
@@ -96,6 +124,9 @@ def direct_finalisation(case, obs):
 
 
 def features(case):
+    if "sched" in case:
+        return {"race", "race-arbitrary-schedule", "race-threads:%d" % len(case["methods"])} | \
+            {"race-method:" + m for m in case["methods"]}
     fs = {"race", "race-victim:" + case["victim"], "race-interferer:" + case["interferer"]}
     if case.get("third"):
         fs |= {"race-three-threads", "race-third:" + case["third"]}
